@@ -311,6 +311,11 @@ class Program:
                     mname, kind = mname.split("@")
                 m = self.prop(cs[0], mname, kind) if kind else self.method(cs[0], mname)
                 if m is not None:
+                    if m.cls is not None and m.cls is not cs[0]:
+                        # the inherited method *as a method of the subclass*: `self.step()` inside it resolves in the
+                        # subclass (a template method whose steps the subclass overrides)
+                        b = FunctionInfo(cs[0].qualname + "." + m.name, m.node, m.module, cls=cs[0], parent=m.parent)
+                        return b
                     return m
         if len(hits) != 1:
             raise AnalysisError(
